@@ -201,8 +201,20 @@ def run(sess: Session):
 
     # 1. the core: one resource, any number of lexicons
     res = addmodel.resource()
-    go('wn._add._add_lexical_resource', A._add_lexical_resource,
-       [res, addmodel.SkipMap(), addmodel.Progress()], {})
+    outs = go('wn._add._add_lexical_resource', A._add_lexical_resource,
+              [res, addmodel.SkipMap(), addmodel.Progress()], {})
+    # A-TXN presupposes a rollback journal: no PRAGMA may switch it off (journal_mode OFF makes ROLLBACK undefined)
+    for o in outs:
+        for e in o.effects:
+            st = e.extra.get('stmt') if e.extra else None
+            if isinstance(st, P.Pragma) and str(st.name).lower() == 'journal_mode':
+                val = str(st.value).strip('\'"').upper()
+                sess.check(Obligation(f'wn._add._add_lexical_resource:txn:journal_mode:{path_id(o)}', PROP, 'sql',
+                                      decided=val in ('MEMORY', 'DELETE', 'TRUNCATE', 'PERSIST', 'WAL'),
+                                      detail=f'PRAGMA journal_mode = {val}: a rollback journal must exist for the '
+                                             'transaction to be undone',
+                                      functions=('wn._add._add_lexical_resource',),
+                                      source=source_span(A._add_lexical_resource)))
     # 2. public entry points (callbacks after the commit are reported here)
     src = SV('obj', z3.Const('source', __import__('vc.pyvc.values', fromlist=['Obj']).Obj))
     go('wn._add.add', A.add, [src, progress_class()], {}, known_close=True)
